@@ -347,6 +347,15 @@ pub fn decode_beatree<K: HashKind>(dir: &Path, d: &mut Decoded) {
             continue;
         }
         d.feat_max("max_cells_in_leaf", n as u64);
+        if let Ok(dd) = std::env::var("NV_DUMP_BBN") {
+            use std::io::Write;
+            if let Ok(mut f) = std::fs::OpenOptions::new().create(true).append(true).open(format!("{dd}/leaves.{}.txt", d.meta.sync_seqn)) {
+                let k0: Key = p[2..34].try_into().unwrap();
+                let o = 2 + (n - 1) * 34;
+                let k1: Key = p[o..o + 32].try_into().unwrap();
+                let _ = writeln!(f, "leaf {leaf_pn} sep={} n={n} first={} last={}", hex32(sep), hex32(&k0), hex32(&k1));
+            }
+        }
         let cell = |i: usize| -> (Key, usize, bool) {
             let o = 2 + i * 34;
             let key: Key = p[o..o + 32].try_into().unwrap();
@@ -788,7 +797,7 @@ pub fn decode_all<K: HashKind>(dir: &Path, model_items: &BTreeMap<Key, (usize, H
             None => {
                 diffs += 1;
                 if diffs <= 3 {
-                    d.issues.push(format!("key {:02x}{:02x}{:02x}{:02x}.. of the model is not in any leaf", k[0], k[1], k[2], k[3]));
+                    d.issues.push(format!("key {:02x}{:02x}{:02x}{:02x}.. of the model is not in any leaf (full key {})", k[0], k[1], k[2], k[3], hex32(k)));
                 }
             }
             Some(v) => {
